@@ -137,6 +137,15 @@ func bodyMulti(c *hk.Ctx, prop string) {
 		detOf[h] = dets[i]
 	}
 	s.mesos.Latency = func(kind string) time.Duration { return time.Duration(c.F(4, "latency-"+kind)) * 3 * time.Millisecond }
+	if prop == "C04" && c.W(3, "slow-kill-calls") == 2 {
+		// KILL calls are network bound: other requests make progress while one is in flight
+		s.mesos.CallLatency = func(typ string) time.Duration {
+			if typ == "KILL" {
+				return time.Duration(c.W(3, "kill-call-ms")) * 100 * time.Millisecond
+			}
+			return 0
+		}
+	}
 
 	// ---- workflows: 1-3, over possibly overlapping host sets ----
 	nWf := 1
